@@ -136,7 +136,17 @@ def judge(ctx, binary, traces, tag, seen):
             t2 = execute(ctx, binary, script, "%s-repro" % tag)[0]
             _, r2, _ = validate_history_trace(ctx, SPEC, "RetryTrace", t2, tag="%s-repro" % tag)
             if not r2:
-                raise Broken("rejection not reproduced (%s): %s" % (tag, json.dumps(w)))
+                # the history alone is accepted: the answer depended on what the same process did before (engines are shared
+                # by the histories of a run) - reproduce with the whole script of that run
+                _, hs_all = split_histories(ev)
+                j = next(i for i, h in enumerate(hs_all) if h == rej["hist"])
+                script = [{"histories": [script_of(h) for h in hs_all]}]
+                t2 = execute(ctx, binary, script, "%s-repro-all" % tag)[0]
+                _, hs2 = split_histories(t2)
+                # the same recording again = the same verdict of the specification on it
+                if len(hs2) != len(hs_all) or hs2[j] != hs_all[j]:
+                    raise Broken("rejection not reproduced (%s): %s" % (tag, json.dumps(w)))
+                w["needs_preceding_histories"] = True
             ctx.violation(w, {"script": script, "trace": [rej["config"]] + rej["hist"], "rejected_at": rej["at"]})
     return res
 
@@ -147,7 +157,8 @@ def run(ctx):
     sd = ctx.spec_dir(SPEC)
     ctx.cov["rule"] = ("histories = seeded random scripts (responses of 1-4 interleaved sequences with statuses inside/outside the "
                        "conditions, new/continued transactions, clock advances around the state TTL) over random settings "
-                       "(attempts, cool-down, multiplier, status ranges) in policy mode and flows mode + TLC -simulate walks of RetryI; "
+                       "(attempts, cool-down, multiplier, status ranges) in policy mode and flows mode + TLC -simulate walks of RetryI + every "
+                       "behaviour of RetryI with 3 (thorough 5) events of one sequence enumerated by TLC; "
                        "non-trivial = some sequence had a retry refused inside the conditions (budget used up / failure reported) and "
                        "was retried again later; distinct by (settings, events)")
     ctx.cov["checker_cmd"] = "tlc -config MC_small.cfg MC_C17.tla ; tlc -config RetryTrace.cfg RetryTrace.tla ; tlc -config RetryITrace.cfg RetryITrace.tla"
@@ -212,6 +223,24 @@ def run(ctx):
         ctx.notes.append("MODEL-DRIFT: %d generated policy walks answered differently from RetryI" % mism)
     ctx.sample({"kind": "tlc-walk-replayed", "events": real[0][:10]})
     judge(ctx, binary, traces, "gen", seen)
+
+    # (2b) spec -> code, exhaustively: every behaviour of RetryI with 3 (thorough: 5) events of one sequence, both modes,
+    #      attempts 1 and 2, statuses inside/outside the conditions, new/continued, clock steps 30 / 31 s around the state TTL
+    gx = ctx.tlc(sd, "GenC17", "GenC17x.cfg" if not T else "GenC17x_large.cfg", workers=1, timeout=900, label="case enumeration", heap="4g")
+    allb = tlc_vh_lines(gx.out)
+    want = 4 * 6 ** (3 if not T else 5)
+    if len(allb) != want:
+        raise Broken("case enumeration produced %d behaviours, expected %d: %s" % (len(allb), want, gx.out[-1500:]))
+    hx = []
+    for w in allb:
+        r = dict(w[0]); r["seqs"] = ["s1"]
+        hx.append([r] + [{k: v for k, v in e.items() if k != "out"} for e in w[1:]])
+    nchunk = 2 if not T else 12
+    k = (len(hx) + nchunk - 1) // nchunk
+    traces = execute(ctx, binary, [{"histories": hx[i:i + k]} for i in range(0, len(hx), k)], "enum")
+    judge(ctx, binary, traces, "enum", seen)
+    ctx.cov["exhaustive"] = True
+    ctx.log("replayed all %d behaviours of the enumeration" % len(allb))
 
     # (3) code -> spec: random scripts, both modes
     nscripts, nh = (6, 40) if not T else (16, 150)
